@@ -174,6 +174,49 @@ pub fn record(seed: u64, tier: &str, out: &str) {
             _ => wide!(isize, usize, "isize"),
         }
     }
+    // next_permutation on sequences longer than the generator enumerates: repeated elements, long non-increasing tails
+    for k in 0..(if thorough { 3000 } else { 400 }) {
+        let len = 8 + rng.usize(40);
+        let alpha = 1 + rng.below(4) as i64;
+        let mut seq: Vec<i64> = (0..len).map(|_| rng.range_i64(0, alpha)).collect();
+        match k % 4 {
+            0 => {
+                // pivot followed by a long non-increasing tail that contains the pivot's value again
+                seq.sort();
+                seq.reverse();
+                let p = rng.usize(len.min(6));
+                let v = seq[len - 1];
+                seq[p] = v;
+            }
+            1 => {
+                seq.sort();
+                seq.reverse();
+                let p = rng.usize(len - 1);
+                seq.swap(p, p + 1);
+            }
+            2 => seq.sort(),
+            _ => {}
+        }
+        let mut w = seq.clone();
+        match catch(move || { let r = next_permutation(&mut w); (w, r) }) {
+            Ok((next, ret)) => t.ev(json!({"ev": "perm_long", "op": "next_permutation", "seq": seq, "next": next, "ret": ret})),
+            Err(p) => t.ev(json!({"ev": "perm_long", "op": "next_permutation", "seq": seq, "panic": p})),
+        }
+    }
+    // neighbour iterators on implicit grids beyond 2^31 / 2^32 (coordinates relative to the logged base)
+    for k in 0..(if thorough { 600 } else { 120 }) {
+        let base: usize = *rng.pick(&[(1usize << 31) - 3, (1 << 31) - 1, 1 << 31, (1 << 32) - 2, 1 << 32, 1_000_000_000_000, (1 << 62) + 5, isize::MAX as usize - 9]);
+        let (nr, mr) = (rng.range_i64(1, 6), rng.range_i64(1, 6));
+        let (ir, jr) = (rng.range_i64(0, nr - 1), rng.range_i64(0, mr - 1));
+        let (n, m, i, j) = (base + nr as usize, base + mr as usize, base + ir as usize, base + jr as usize);
+        let _ = k;
+        let rel = |v: Vec<(usize, usize)>| -> Vec<Vec<i64>> { v.iter().map(|&(x, y)| vec![(x as i128 - base as i128) as i64, (y as i128 - base as i128) as i64]).collect() };
+        match catch(|| (iter_neighbours_4(n, m, i, j).collect::<Vec<_>>(), iter_neighbours_4d(n, m, i, j).collect::<Vec<_>>(), iter_neighbours_8(n, m, i, j).collect::<Vec<_>>())) {
+            Ok((a, b, c)) => t.ev(json!({"ev": "nbr_big", "op": "iter_neighbours", "base": base.to_string(), "nr": nr, "mr": mr, "ir": ir, "jr": jr,
+                                         "n4": rel(a), "n4d": rel(b), "n8": rel(c)})),
+            Err(p) => t.ev(json!({"ev": "nbr_big", "op": "iter_neighbours", "base": base.to_string(), "panic": p})),
+        }
+    }
     let ev = t.finish();
     println!("{}", json!({"events": ev, "runs": 1, "mask_elements": elems, "nontrivial": elems}));
 }
